@@ -24,7 +24,7 @@ func TestMain(m *testing.M) {
 	os.Exit(m.Run())
 }
 
-var genOpts = c01.GenOpts{AllowHigh: true, AttestW: 45, BatchW: 30, ProposeW: 20, RestartW: 5, MinSteps: 1, MaxSteps: 8}
+var genOpts = c01.GenOpts{AllowHigh: true, AttestW: 45, BatchW: 30, ProposeW: 20, RestartW: 5, MinSteps: 1, MaxSteps: 8, ParP: 35}
 
 func classify(c *CrashCase, o *CrashOutcome) bool {
 	s := vkit.S
@@ -48,6 +48,13 @@ func classify(c *CrashCase, o *CrashOutcome) bool {
 	}
 	if c.Mode == "parent" {
 		s.Class("external-sigkill")
+	}
+	for i := range c.Steps {
+		if i > 0 && c.Steps[i].Par && (c.Steps[i].Kind == "attest" || c.Steps[i].Kind == "propose") && (c.Steps[i-1].Kind == "attest" || c.Steps[i-1].Kind == "propose") {
+			s.Class("history-with-concurrent-requests")
+
+			break
+		}
 	}
 	s.ClassN("probes-sent", o.ProbesSent)
 	s.ClassN("released-before-crash", o.ReleasedBefore)
@@ -197,6 +204,8 @@ func TestC03Power(t *testing.T) {
 
 // TestC03Record is L1: at the moment AccountSigner.Sign is invoked for a request, the exported
 // slashing-protection record of that key already dominates the request.
+var concurrentWaves int
+
 func TestC03Record(t *testing.T) {
 	defer vkit.Flush()
 	run := func(c *c01.Case) (int, *vkit.Violation, error) {
@@ -259,41 +268,68 @@ func TestC03Record(t *testing.T) {
 			return 0, nil, err
 		}
 		defer st.Close()
-		for i := range c.Steps {
-			s := &c.Steps[i]
+		single := func(s *c01.Step) bool { return s.Kind == "attest" || s.Kind == "propose" }
+		for i := 0; i < len(c.Steps); {
+			j := i + 1
+			if single(&c.Steps[i]) {
+				for j < len(c.Steps) && c.Steps[j].Par && single(&c.Steps[j]) {
+					j++
+				}
+			}
+			wave := c.Steps[i:j]
 			mu.Lock()
 			inflight = map[string]pending{}
-			switch s.Kind {
-			case "attest", "batch":
-				for j := range s.Entries {
-					e := &s.Entries[j]
-					r := vkit.SigningRoot(vkit.AttDataRoot(&e.Att), e.Att.Domain)
-					inflight[fmt.Sprintf("%x", r[:])] = pending{key: e.Key, att: &e.Att}
+			for k := range wave {
+				s := &wave[k]
+				switch s.Kind {
+				case "attest", "batch":
+					for j := range s.Entries {
+						e := &s.Entries[j]
+						r := vkit.SigningRoot(vkit.AttDataRoot(&e.Att), e.Att.Domain)
+						inflight[fmt.Sprintf("%x", r[:])] = pending{key: e.Key, att: &e.Att}
+					}
+				case "propose":
+					r := vkit.SigningRoot(vkit.PropDataRoot(s.Prop), s.Prop.Domain)
+					inflight[fmt.Sprintf("%x", r[:])] = pending{key: s.Key, prop: s.Prop}
 				}
-			case "propose":
-				r := vkit.SigningRoot(vkit.PropDataRoot(s.Prop), s.Prop.Domain)
-				inflight[fmt.Sprintf("%x", r[:])] = pending{key: s.Key, prop: s.Prop}
 			}
 			mu.Unlock()
-			switch s.Kind {
-			case "restart":
-				if err := st.Restart(); err != nil {
-					return checked, nil, err
+			var wg sync.WaitGroup
+			var restartErr error
+			for k := range wave {
+				s := &wave[k]
+				do := func() {
+					switch s.Kind {
+					case "restart":
+						restartErr = st.Restart()
+					case "attest":
+						e := s.Entries[0]
+						st.Attest(c01.Client, "", vkit.TargetPadded(w.Accounts[e.Key], e.ByKey, e.Pad), s.ViaGRPC, &e.Att)
+					case "batch":
+						ts := make([]vkit.Target, len(s.Entries))
+						as := make([]*vkit.Att, len(s.Entries))
+						for j := range s.Entries {
+							ts[j] = vkit.TargetPadded(w.Accounts[s.Entries[j].Key], s.Entries[j].ByKey, s.Entries[j].Pad)
+							as[j] = &s.Entries[j].Att
+						}
+						st.AttestBatch(c01.Client, "", ts, s.ViaGRPC, as)
+					case "propose":
+						st.Propose(c01.Client, "", vkit.TargetPadded(w.Accounts[s.Key], s.ByKey, s.Pad), s.ViaGRPC, s.Prop)
+					}
 				}
-			case "attest":
-				e := s.Entries[0]
-				st.Attest(c01.Client, "", vkit.TargetPadded(w.Accounts[e.Key], e.ByKey, e.Pad), s.ViaGRPC, &e.Att)
-			case "batch":
-				ts := make([]vkit.Target, len(s.Entries))
-				as := make([]*vkit.Att, len(s.Entries))
-				for j := range s.Entries {
-					ts[j] = vkit.TargetPadded(w.Accounts[s.Entries[j].Key], s.Entries[j].ByKey, s.Entries[j].Pad)
-					as[j] = &s.Entries[j].Att
+				if len(wave) == 1 {
+					do()
+				} else {
+					concurrentWaves++
+					wg.Add(1)
+					go func() { defer wg.Done(); do() }()
 				}
-				st.AttestBatch(c01.Client, "", ts, s.ViaGRPC, as)
-			case "propose":
-				st.Propose(c01.Client, "", vkit.TargetPadded(w.Accounts[s.Key], s.ByKey, s.Pad), s.ViaGRPC, s.Prop)
 			}
+			wg.Wait()
+			if restartErr != nil {
+				return checked, nil, restartErr
+			}
+			i = j
 			mu.Lock()
 			v := viol
 			mu.Unlock()
@@ -318,7 +354,7 @@ func TestC03Record(t *testing.T) {
 	if vkit.ReplayOnly() {
 		return
 	}
-	opts := c01.GenOpts{AllowHigh: true, AttestW: 40, BatchW: 30, ProposeW: 22, RestartW: 8, MinSteps: 1, MaxSteps: 30}
+	opts := c01.GenOpts{AllowHigh: true, AttestW: 40, BatchW: 30, ProposeW: 22, RestartW: 8, MinSteps: 1, MaxSteps: 30, ParP: 40}
 	rapid.Check(t, func(rt *rapid.T) {
 		c := c01.GenCase(rt, opts)
 		stop := vkit.Watch(c, 120*time.Second)
@@ -329,6 +365,8 @@ func TestC03Record(t *testing.T) {
 		}
 		vkit.S.Eval()
 		vkit.S.ClassN("record-checked-at-sign-invocation", n)
+		vkit.S.ClassN("l1-requests-sent-concurrently", concurrentWaves)
+		concurrentWaves = 0
 		if n > 0 {
 			vkit.S.Nontrivial(map[string]any{"l1": c})
 		}
